@@ -54,7 +54,7 @@ def main():
     rc = C.EXIT_OK
     lines = []
     replay_info = None
-    if failed or C.TIER == "thorough":
+    if failed or undecided or C.TIER == "thorough":
         replay_info = replay_search(deep=(C.TIER == "thorough"))
     for r in failed:
         ob = V.obligation_name(r)
@@ -121,6 +121,7 @@ def main():
         "old_ranges.len() + 2 <= usize::MAX is a precondition of insert",
         "the proof covers range_map.rs only; that class expressions are compiled to these calls (regex_to_range_map) is covered by its own unit when listed under functions_under_contract",
     ] + ["assumed/trusted item in generated Verus file: " + a for a in summ["assumption_scan"]]
+    rc = C.settle(rc, summ["discharged"] + c_ok + (1 if (replay_info or {}).get("searched") else 0))
     C.write_evidence(PROP, "proof", cov, assumptions, time.time() - t0, violations)
     for ln in lines:
         C.say(ln)
